@@ -132,6 +132,25 @@ def render_case(shape, prefix='c', kinds='$<>', label_len=1, distinct_labels=Tru
     opts = shape.get('opts', {})
     blocks = [list(b) for b in shape['blocks']]
     cuts = [tuple(c) for c in shape['cut']]
+    # shared-atom cuts: [cut index, end] -- the atom at that end of the cut bond is duplicated into the
+    # other fragment; the duplicate and the original carry a '!' pair instead of an ordinary pair
+    shared_pairs = []
+    if shape.get('shared'):
+        mol = mol.copy()
+        shared_idx = set()
+        for ci, end in shape['shared']:
+            i, j = cuts[ci]
+            keep, dup = (i, j) if end == 1 else (j, i)       # dup is duplicated into keep's fragment
+            order = mol.bonds.pop((min(i, j), max(i, j)))
+            mol.atoms.append(dict(mol.atoms[dup]))
+            new = len(mol.atoms) - 1
+            mol.add_bond(keep, new, order)
+            for b in blocks:
+                if keep in b:
+                    b.append(new)
+            shared_pairs.append((new, dup))
+            shared_idx.add(ci)
+        cuts = [c for ci, c in enumerate(cuts) if ci not in shared_idx]
     where = {a: bi for bi, b in enumerate(blocks) for a in b}
     holes = {'kind': [], 'label': []}
     desc_on = {}     # atom -> list of (kind item, label items, order)
@@ -143,8 +162,15 @@ def render_case(shape, prefix='c', kinds='$<>', label_len=1, distinct_labels=Tru
         holes['label'].append(SymStr.mk(lab))
         desc_on.setdefault(i, []).append((k, lab, order))
         desc_on.setdefault(j, []).append((complement_char(k), lab, order))
+    for si, (a, b) in enumerate(shared_pairs):
+        lab = [sym_alnum("%s_s%d_%d" % (prefix, si, x)) for x in range(label_len)]
+        holes['kind'].append('!')
+        holes['label'].append(SymStr.mk(lab))
+        desc_on.setdefault(a, []).append(('!', lab, 1))
+        desc_on.setdefault(b, []).append(('!', lab, 1))
+    cuts = cuts + shared_pairs
     if distinct_labels and label_len:
-        for a, b in itertools.combinations(range(len(cuts)), 2):
+        for a, b in itertools.combinations(range(len(holes['label'])), 2):
             symx.ENG.assume(holes['label'][a] != holes['label'][b])
     names = [name_of(bi) if name_of else 'F%d' % bi for bi in range(len(blocks))]
     frag_texts = []
